@@ -121,7 +121,8 @@ def gen_pandas_datetime(rng):
     from pandera.engines import pandas_engine as PE
 
     tz = _tz(rng) if rng.random() < 0.85 else None
-    unit = "ns"  # documented: "Currently limited to ns"
+    # the docstring says "Currently limited to ns", but pandas >= 2 hands out s/ms/us tz-aware dtypes and the engine accepts them
+    unit = rng.choice(["s", "ms", "us", "ns"]) if tz is not None and int(pd.__version__.split(".")[0]) >= 2 else "ns"
     t = PE.DateTime(tz=tz, unit=unit)
     native = pd.DatetimeTZDtype(unit, tz) if tz is not None else None
     return PE.Engine, t, True, native, f"pandas DateTime(unit={unit!r}, tz={tz!r})"
